@@ -57,6 +57,10 @@ PANICKY = {
 }
 
 
+# no buffer in memory is longer than this (x86-64 / aarch64 user address spaces are 2^47..2^56 bytes): sums of a few lengths cannot overflow usize
+MAX_LEN = 2**56
+
+
 def checked_source(t):
     """The checked_add/checked_sub call whose Some payload the term t denotes, or None."""
     x = payload_of(t)
@@ -167,7 +171,7 @@ class Tr:
             if isinstance(k, int) and k >= 1:
                 self.trusted_used.add("str::splitn(n >= 1, _) yields between 1 and n items")
                 return self.atom(("len", x), 1, k)
-        return self.atom(("len", x), 0, 2**63 - 1)
+        return self.atom(("len", x), 0, MAX_LEN)
 
     # --- terms
     def lin(self, t):
@@ -722,10 +726,19 @@ class PanicAnalysis:
         if sm is not None:
             for a_, p_ in (sm, (sm[1], sm[0])):
                 kl = tr.lin(a_)
-                k = kl.k if kl.is_const() else None
+                k = int(kl.k) if kl.is_const() and kl.k == int(kl.k) else None
                 ps = payload_of(p_)
                 if isinstance(k, int) and ps is not None and is_call(ps, "position") and ascii_position(ps, k) and prefix_len_on_path(k):
                     return True, "L-str-prefix + L-str-byte"
+                # k + str::find(s[k..], pat): where the pattern was found in the rest of this very string
+                if isinstance(k, int) and ps is not None and ps[0] == "call" and ps[1].startswith("core::str::<impl str>::") and last_seg(ps[1]) in ("find", "rfind") and prefix_len_on_path(k):
+                    hay = look(ps[2][0])
+                    if is_call(hay, "index") and norm(look(hay[2][0])) == norm(b):
+                        rr = look(hay[2][1])
+                        if rr[0] == "agg" and rr[1].startswith("std::ops::RangeFrom"):
+                            sk = tr.lin(rr[3][0])
+                            if sk.is_const() and sk.k == k:
+                                return True, "L-str-prefix + L-str-find"
         return False, "start index of the str slice is not covered by a lemma"
 
     def path_infeasible(self, fn, lf, i):
